@@ -1,6 +1,7 @@
 import GV.Model.Selection
 import GV.Proofs.Selection
 import GV.Gen.GoLite
+import GV.Gen.SrcG7
 /-!
 C41 — Chain selection is a consistent preference order.
 
@@ -492,6 +493,37 @@ theorem mixed_preferred_witness :
 theorem mixed_preferred_repaired :
     preferredWithDensity wP [some w1, some w2, some wS] = some (1, some w2) ∧
     preferredWithDensity wP [some wS, some w1, some w2] = some (2, some w2) := by decide
+
+/-- Regenerated tie: `Compare`, `selectPreferred` and `WindowedChainTip.BlocksInWindow` as re-extracted from
+    the source on every run are the statements the model mirrors. -/
+theorem source_as_modelled :
+    GV.Gen.SrcG7.compare = [
+  "if a == nil && b == nil { return 0 }",
+  "if a == nil { return -1 }",
+  "if b == nil { return 1 }",
+  "if a.BlockNumber() != b.BlockNumber() { if a.BlockNumber() > b.BlockNumber() { return 1 } return -1 }",
+  "aVRFBytes := a.VRFOutput()",
+  "bVRFBytes := b.VRFOutput()",
+  "if len(aVRFBytes) == 0 && len(bVRFBytes) == 0 { return 0 }",
+  "if len(aVRFBytes) == 0 { return -1 }",
+  "if len(bVRFBytes) == 0 { return 1 }",
+  "aVRF := new(big.Int).SetBytes(aVRFBytes)",
+  "bVRF := new(big.Int).SetBytes(bVRFBytes)",
+  "cmp := aVRF.Cmp(bVRF)",
+  "if cmp < 0 { return 1 }",
+  "if cmp > 0 { return -1 }",
+  "return 0"] ∧
+    GV.Gen.SrcG7.selectPreferred = [
+  "if len(candidates) == 0 { return nil }",
+  "preferred := candidates[0]",
+  "for i := 1; i < len(candidates); i++ { if compare(candidates[i], preferred) > 0 { preferred = candidates[i] } }",
+  "return preferred"] ∧
+    GV.Gen.SrcG7.blocksInWindow = [
+  "if windowSlots == 0 { return 0 }",
+  "var count uint64",
+  "for _, blockSlot := range w.blockSlots { if blockSlot > forkSlot && blockSlot-forkSlot <= windowSlots { count++ } }",
+  "return count"] := by
+  decide
 
 /-! non-vacuity -/
 example : selectPreferred compareTips [some wS, none, some { wS with bn := 9 }, some w1] =
